@@ -236,7 +236,6 @@ mod imp {
 
    // ---------------------------------------------------------------------------------------------------------------
    // ternary provider r(K, T, T), 2 keys x 3 items, both reverse maps present
-   const K3: usize = 2;
    const D3: usize = 3;
    type Tern = TrRel2IndCommonWrapper<true, true, u8, u8>;
    struct V3 {
@@ -248,7 +247,7 @@ mod imp {
       lookups: Vec<(&'static str, Vec<(u8, u8, u8)>)>,
       scans: Vec<(&'static str, Vec<(u8, u8, u8)>)>,
    }
-   fn read3(c: &Tern) -> V3 {
+   fn read3(c: &Tern, k3: usize) -> V3 {
       let to_full = ToTrRel2IndFull::<u8, u8>::default();
       let to_none = ToTrRel2IndNone::<u8, u8>::default();
       let to_0 = ToTrRel2Ind0::<u8, u8>::default();
@@ -267,7 +266,7 @@ mod imp {
       let i12 = to_12.to_rel_index(c);
       let mut v = V3 { full_contains: Rows::new(), full_get: Rows::new(), full_all: vec![], none_get: vec![], none_all: vec![], lookups: vec![], scans: vec![] };
       let (mut g0, mut g1, mut g2, mut g01, mut g02, mut g12) = (vec![], vec![], vec![], vec![], vec![], vec![]);
-      for k in 0..K3 as u8 {
+      for k in 0..k3 as u8 {
          if let Some(it) = i0.index_get(&(k,)) {
             for (a, b) in it {
                g0.push((k, *a, *b));
@@ -370,12 +369,12 @@ mod imp {
    }
 
    /// codes: 0 stop, 1..=18 derive (k, a, b), 19 end of iteration, 20 end of stratum
-   pub fn protocol3<const L: usize>(s: &mut dyn Src, r: &mut Report) {
+   pub fn protocol3<const L: usize, const K3: usize>(s: &mut dyn Src, r: &mut Report) {
       let mut ops = vec![];
       let mut stopped = false;
       for _ in 0..L {
          let c = s.byte();
-         s.require(c <= 20 && (!stopped || c == 0));
+         s.require((c as usize) <= 9 * K3 + 2 && (!stopped || c == 0));
          if c == 0 {
             stopped = true;
          } else {
@@ -385,12 +384,13 @@ mod imp {
       if s.rejected() {
          return;
       }
-      ops.push(20);
-      r.note(format!("codes (1 + 9k + 3a + b = derive (k, a, b); 19 = end of iteration; 20 = end of stratum) = {:?}", ops));
+      let (it_end, st_end) = ((9 * K3 + 1) as u8, (9 * K3 + 2) as u8);
+      ops.push(st_end);
+      r.note(format!("codes (1 + 9k + 3a + b = derive (k, a, b); then end of iteration, end of stratum) = {:?}", ops));
       let mut evs = vec![];
       for &c in &ops {
-         if c == 20 {
-            evs.extend([19, 19, 20]);
+         if c == st_end {
+            evs.extend([it_end, it_end, st_end]);
          } else {
             evs.push(c);
          }
@@ -406,18 +406,18 @@ mod imp {
       let mut merged = Rows::new();
       let mut new_raw = Rows::new();
       for &c in &evs {
-         if c == 20 {
+         if c == st_end {
             field = std::mem::replace(&mut total, Tern::default());
             delta = std::mem::replace(&mut field, Tern::default());
             total = Tern::default();
             new = Tern::default();
             RelIndexMerge::init(&mut new, &mut delta, &mut total);
             let known = tc(&merged, K3, D3);
-            let d = read3(&delta);
+            let d = read3(&delta, K3);
             chk!(r, "ternary_trrel_stratum_start_delta_is_everything_known", d.full_contains == known && exact(&d.none_get, &known) && d.lookups.iter().all(|(_, g)| exact(g, &known)));
             continue;
          }
-         if c <= 18 {
+         if c < it_end {
             let c = c - 1;
             let row = (c / 9, (c % 9) / 3, c % 3);
             offered.insert(row);
@@ -436,8 +436,8 @@ mod imp {
             let c_now = tc(&merged, K3, D3);
             new_raw.clear();
             let added: Rows = c_now.difference(&c_prev).cloned().collect();
-            let t = read3(&total);
-            let d = read3(&delta);
+            let t = read3(&total, K3);
+            let d = read3(&delta, K3);
             chk!(r, "ternary_trrel_total_full_index_is_the_previous_closure", t.full_contains == c_prev && t.full_get == c_prev && exact(&t.full_all, &c_prev));
             chk!(r, "ternary_trrel_total_no_index_is_the_previous_closure", exact(&t.none_get, &c_prev) && exact(&t.none_all, &c_prev));
             chk!(r, "ternary_trrel_total_lookups_are_the_previous_closure", t.lookups.iter().all(|(_, g)| exact(g, &c_prev)));
@@ -453,7 +453,7 @@ mod imp {
             }
          }
       }
-      let d = read3(&delta);
+      let d = read3(&delta, K3);
       let c_all = tc(&offered, K3, D3);
       chk!(r, "ternary_trrel_fixpoint_is_the_per_key_transitive_closure", d.full_contains == c_all && exact(&d.none_get, &c_all) && d.lookups.iter().all(|(_, g)| exact(g, &c_all)));
       chk!(r, "ternary_trrel_cycles_imply_reflexive_pairs", d.full_contains == tc_full(&offered, K3, D3) || d.full_contains != c_all);
@@ -464,4 +464,4 @@ pub use imp::{protocol2, protocol3};
 #[cfg(kani)]
 pub fn protocol2<const L: usize>(_s: &mut dyn Src, _r: &mut Report) {}
 #[cfg(kani)]
-pub fn protocol3<const L: usize>(_s: &mut dyn Src, _r: &mut Report) {}
+pub fn protocol3<const L: usize, const K3: usize>(_s: &mut dyn Src, _r: &mut Report) {}
